@@ -247,7 +247,7 @@ def main(argv=None):
         extra_cov["lean_lemmas"] = lean_status()
     if prop == "C08":
         # the composition step of the prefix argument (core Lean, ~10 s, cached by file hash): every tier
-        extra_cov["lean_prefix_lemma"] = lean_status("Prefix.lean", "prefix_of_unlimited / limited_run_is_prefix (composition of the loop contracts into 'limited run == prefix of the unlimited run')", timeout=300)
+        extra_cov["lean_prefix_lemma"] = lean_status("Prefix.lean", "prefix_of_unlimited / limited_run_is_prefix / deadline_run_returns_a_state_of_the_unlimited_run (composition of the loop contracts into 'limited run == prefix of the unlimited run')", timeout=300)
     if prop == "C06":
         extra_cov = assert_coverage(ledger)
     wall = time.time() - t0
